@@ -822,7 +822,18 @@ fn run(a: &vhcore::Args) -> i32 {
 
     if thorough {
         // e2e packages: deterministic stride over the sorted list, first 20 that build offline
-        let cands = e2e_candidates();
+        // packages that depend on test/src/e2e_vm_tests/reduced_std_libs cannot be built without the
+        // e2e harness (it generates those libraries' sources at run time, inside /repo)
+        let all_cands = e2e_candidates();
+        rep.set("e2e_packages_total", all_cands.len() as u64);
+        let cands: Vec<PathBuf> = all_cands
+            .into_iter()
+            .filter(|d| {
+                std::fs::read_to_string(d.join("Forc.toml"))
+                    .map(|m| !m.contains("reduced_std_libs") && m.contains("[project]") && !m.contains("[workspace]"))
+                    .unwrap_or(false)
+            })
+            .collect();
         let want = env_num("VH_C15_E2E_N").unwrap_or(20);
         let stride = (cands.len() / 60).max(1);
         let mut picked: Vec<PathBuf> = cands.iter().step_by(stride).cloned().collect();
